@@ -752,6 +752,59 @@ def unicode_word(s):
 
 
 # ---------------------------------------------------------------- the check
+def probe_history_and_long(ctx, stats):
+    """(a) generators are independent of one another: building and using a generator with a custom
+    alphabet does not change what another generator - or fake() - produces; (b) explicit repeat
+    counts beyond the default cap and beyond a few thousand characters are honoured or refused."""
+    import random as _rnd
+    from d42 import fake, schema
+    Random, RegexGenerator, _ = _impl()
+    _rnd.seed(ctx.seed * 7919 + 13)
+    probes = [".{8}", "\\d{6}", "\\w{6}", "[^a]{6}", "a.b", "^.+$", "<.*?>", "[^\\d]{4}x"]
+    probes = [p.replace("\\\\", "\\") for p in probes]
+    customs = [{"letters": "\n\r"}, {"digits": "x"}, {"word": "-"}, {"letters": "\n", "digits": "٣", "word": " "}]
+    n = 0
+    for rounds in range(ctx.scale(3, 12)):
+        for alpha in customs:
+            g = RegexGenerator(Random(), alphabet=dict(alpha))
+            try:
+                g.generate(".\\d\\w".replace("\\\\", "\\"))
+            except Exception:  # noqa
+                pass
+            for p in probes:
+                outs = []
+                try:
+                    outs.append(("RegexGenerator(Random())", RegexGenerator(Random()).generate(p)))
+                    outs.append(("fake(schema.str.regex)", fake(schema.str.regex(p))))
+                except ValueError:
+                    continue
+                for how, out in outs:
+                    n += 1
+                    if re.fullmatch(p, out) is None:
+                        ctx.violation(f"generated string does not match the whole pattern {p!r} after another generator "
+                                      f"was used with a custom alphabet: {out!r}",
+                                      {"kind": "history", "pattern": p, "custom_alphabet": alpha, "how": how, "observed": out,
+                                       "expected": "a full match (generators do not share their alphabets)"})
+                        return n
+    long_patterns = ["a{5000}", "(?:ab){3000}", "\\d{4097}", "x{4096}y", "(?:[0-9a-f]{2}:){1500}[0-9a-f]{2}",
+                     "a{4095}b{2}", "(?:\\w{8}-){600}z", "a{10000}", "[ab]{5000,}?c", "(a{100}){50}"]
+    for p in [q.replace("\\\\", "\\") for q in long_patterns]:
+        for k in (None, 0, 1, 100):
+            try:
+                g = RegexGenerator(Random()) if k is None else RegexGenerator(Random(), max_repeat=k)
+                out = g.generate(p)
+            except ValueError:
+                stats["supported_refused"] += 1
+                continue
+            n += 1
+            if re.fullmatch(p, out) is None:
+                ctx.violation(f"generated string (length {len(out)}) does not match the whole pattern {p!r}",
+                              {"kind": "input", "pattern": p, "max_repeat": k, "observed_length": len(out),
+                               "observed_tail": out[-40:], "expected": "a full match or ValueError"})
+                return n
+    return n
+
+
 def run(ctx):
     r = ctx.rng
     depth = ctx.scale(4, 6)
@@ -829,6 +882,7 @@ def run(ctx):
     # correspondence 1: generator model on the recorded tapes
     modelled = [x for x in runs if x.cre is not None]
     terms = [x.term() for x in modelled]
+    stats["history_and_long_probes"] = probe_history_and_long(ctx, stats)
     bad = common.eval_cases(ctx.workdir, "c09gen", terms, "rgcase", "regen_case_ok",
                             extra_requires="Require Import D42.PyRandom D42.RegexGen D42Gen.GenConsts.", per_file=300)
     for i in bad[:10]:
